@@ -254,6 +254,38 @@ fn expected_segment(seg: &[Batch], col: &str) -> Vec<Cell> {
     expected(&ops)
 }
 
+/// known-finding shape tags of one column (union over the table buffers it lives in)
+fn column_tag(cfg: &Cfg, segs: &[Vec<Batch>], c: &str) -> String {
+    let mut tags = std::collections::BTreeSet::new();
+    for seg in segs {
+        let mut ops = vec![];
+        for b in seg {
+            match b.cols.iter().find(|(n, _)| n == c) {
+                Some((_, spec)) => ops.extend(cells_to_ops(&batch_cells(spec))),
+                None => ops.push(Op::Nulls(b.rows)),
+            }
+        }
+        for t in shape_tag(&shape_of(&ops), cfg.batch_size).split('+') {
+            if t != "-" {
+                tags.insert(t.to_string());
+            }
+        }
+    }
+    if tags.is_empty() { "-".into() } else { tags.into_iter().collect::<Vec<_>>().join("+") }
+}
+
+fn table_tag(cfg: &Cfg, segs: &[Vec<Batch>], colnames: &[String]) -> String {
+    let mut s = std::collections::BTreeSet::new();
+    for c in colnames {
+        for t in column_tag(cfg, segs, c).split('+') {
+            if t != "-" {
+                s.insert(t.to_string());
+            }
+        }
+    }
+    if s.is_empty() { "-".to_string() } else { s.into_iter().collect::<Vec<_>>().join("+") }
+}
+
 // ------------------------------------------------------------------------------------------------
 // running the database
 
@@ -577,7 +609,7 @@ impl Suite for Api {
 
     fn generate(&self, seed: u64, tier: &str) -> Vec<Case> {
         let mut r0 = Rng::new(seed ^ 0xA91_C01);
-        let n_cases = if tier == "thorough" { 4_000 } else { 260 };
+        let n_cases = if tier == "thorough" { 5_000 } else { 340 };
         let mut cases = vec![];
         for i in 0..n_cases {
             let mut r = r0.fork(i as u64);
@@ -624,10 +656,17 @@ impl Suite for Api {
             if segs.is_empty() {
                 continue;
             }
+            // tables in a known-finding class stay in the distribution at a small share
+            let colnames_v: Vec<String> = names.iter().map(|(n, _)| n.clone()).collect();
+            let known = table_tag(&cfg, &segs, &colnames_v);
+            if known != "-" && !r.chance(1, 5) {
+                continue;
+            }
             labels.sort();
             labels.dedup();
             let class = format!(
-                "{}/{}",
+                "{}{}/{}",
+                if known != "-" { "known-shape:" } else { "" },
                 if cfg.disk { "disk" } else { "mem" },
                 labels.iter().map(|l| l.split(':').next().unwrap_or("").to_string()).collect::<std::collections::BTreeSet<_>>().into_iter().collect::<Vec<_>>().join("+")
             );
@@ -677,36 +716,8 @@ impl Suite for Api {
             exp.insert(c.clone(), v);
         }
         // shape facts per column (for the known-finding signatures)
-        let tag_of = |c: &str| -> String {
-            let mut tags = std::collections::BTreeSet::new();
-            for seg in &segs {
-                let mut ops = vec![];
-                for b in seg {
-                    match b.cols.iter().find(|(n, _)| n == c) {
-                        Some((_, spec)) => ops.extend(cells_to_ops(&batch_cells(spec))),
-                        None => ops.push(Op::Nulls(b.rows)),
-                    }
-                }
-                for t in shape_tag(&shape_of(&ops), cfg.batch_size).split('+') {
-                    if t != "-" {
-                        tags.insert(t.to_string());
-                    }
-                }
-            }
-            if tags.is_empty() { "-".into() } else { tags.into_iter().collect::<Vec<_>>().join("+") }
-        };
-        let all_tags: Vec<String> = {
-            let mut s = std::collections::BTreeSet::new();
-            for c in &colnames {
-                for t in tag_of(c).split('+') {
-                    if t != "-" {
-                        s.insert(t.to_string());
-                    }
-                }
-            }
-            s.into_iter().collect()
-        };
-        let table_tag = if all_tags.is_empty() { "-".to_string() } else { all_tags.join("+") };
+        let tag_of = |c: &str| -> String { column_tag(&cfg, &segs, c) };
+        let table_tag = table_tag(&cfg, &segs, &colnames);
 
         let sel = match run_table(&cfg, &segs, &colnames, &tables) {
             Ok(s) => s,
